@@ -136,17 +136,19 @@ SendTicks(ops, i, c) ==
         ELSE <<>>) \o SendTicks(ops, i + 1, c)
 
 -----------------------------------------------------------------------------
-Init ==
+(* the run starts at clock value n0 (0 in the model-checking runs; the recorded clock in TraceEngine.tla) *)
+InitAt(n0) ==
   /\ bs = R!EmptyState
   /\ buf = <<[k |-> "add", ty |-> "Start", uid |-> "s0", evk |-> 0, target |-> "*", att |-> -1, first |-> -1,
               last_exc |-> "none", rc |-> R!NoRc]>>
-  /\ wake = IF TimeoutMs = -1 THEN {} ELSE {[at |-> TimeoutMs, seq |-> 0, tick |-> [k |-> "timeout"]]}
+  /\ wake = IF TimeoutMs = -1 THEN {} ELSE {[at |-> n0 + TimeoutMs, seq |-> 0, tick |-> [k |-> "timeout"]]}
   /\ wseq = 1 /\ idlePending = FALSE /\ pend = <<>> /\ tasks = {} /\ pull = [st |-> "none"]
-  /\ mailbox = <<>> /\ now = 0 /\ outcome = "none" /\ phase = "drain" /\ next = 0 /\ ncancel = 0
+  /\ mailbox = <<>> /\ now = n0 /\ outcome = "none" /\ phase = "drain" /\ next = 0 /\ ncancel = 0
   /\ tickLog = <<>> /\ pubs = <<>>
   /\ mon = [nterm |-> 0, lastkind |-> "none", after |-> FALSE, slots |-> {}, bad35 |-> FALSE, asks |-> {}, askdup |-> FALSE,
             used |-> {}, duplist |-> FALSE, waits |-> {}, dupwait |-> FALSE, tos |-> {}, dupto |-> FALSE,
             lastend |-> <<>>, early |-> FALSE, baddeliv |-> FALSE]
+Init == InitAt(0)
 
 IsTerminal(p) == p.k \in {"stop", "failed", "cancelled", "timedout"}
 MonPub(m, p) ==
@@ -202,10 +204,11 @@ BadDelivery(tick, pre, r) ==
           \/ nunh # (IF orphan THEN 1 ELSE 0)
 
 (* one iteration of `while self.tick_buffer:` -- _process_tick *)
-Drain ==
+(* DrainTick(tick): the head of the buffer is processed as `tick` (= Head(buf) in the model; TraceEngine.tla passes the *)
+(* recorded tick, which additionally carries the payload attribute `evk` of the event that the state does not keep)  *)
+DrainTick(tick) ==
   /\ Live /\ phase = "drain" /\ buf # <<>>
-  /\ LET tick == Head(buf)
-         r == R!Reduce(bs, tick, now)
+  /\ LET r == R!Reduce(bs, tick, now)
          x0 == [buf |-> Tail(buf), wake |-> wake, wseq |-> wseq, pend |-> pend, pubs |-> <<>>, mon |-> mon,
                 idlePending |-> IF tick.k = "idlecheck" THEN FALSE ELSE idlePending, outcome |-> "none"]
          x1 == Exec(r.cmds, 1, x0)
@@ -217,6 +220,7 @@ Drain ==
         /\ pend' = IF x.outcome = "none" THEN x.pend ELSE <<>>          \* cleanup_tasks on exit
         /\ tasks' = IF x.outcome = "none" THEN tasks ELSE {}
   /\ UNCHANGED <<pull, mailbox, now, phase, next, ncancel>>
+Drain == buf # <<>> /\ DrainTick(Head(buf))
 
 IpEntry(s, wid) == LET ws == bs.steps[s] IN ws.ip[R!IpIndex(ws, wid)]
 
@@ -287,8 +291,10 @@ Quiescent == /\ phase = "wait" /\ ~AnyWorkerDone /\ pull.st # "got" /\ Due = {}
 
 -----------------------------------------------------------------------------
 (* environment: only at quiescence points *)
-WorkerFinish(t) ==
-  /\ Live /\ Quiescent /\ t \in tasks /\ t.st = "running"
+(* the body of task t runs to its end (without the "only at quiescence" scheduling assumption of the model-checking *)
+(* runs: TraceEngine.tla uses this form, because a body without a gate finishes while the loop is starting tasks)    *)
+WorkerFinishBody(t) ==
+  /\ Live /\ t \in tasks /\ t.st = "running"
   /\ LET e == IpEntry(t.step, t.wid)
          c == [step |-> t.step, uid |-> t.uid, ty |-> t.ty, att |-> e.att, rc |-> e.rc,
                snapColl |-> e.snap_coll, snapW |-> e.snap_waiters]
@@ -305,6 +311,7 @@ WorkerFinish(t) ==
                                   !.lastend = [k \in (DOMAIN @) \cup {key} |->
                                                  IF k = key THEN [att |-> e.att, at |-> now] ELSE @[k]]]
   /\ UNCHANGED <<bs, buf, wake, wseq, idlePending, pend, pull, now, outcome, phase, next, ncancel, tickLog, pubs>>
+WorkerFinish(t) == Quiescent /\ WorkerFinishBody(t)
 
 ExtSend(m) ==
   /\ Live /\ Quiescent /\ next < MaxExt
